@@ -4,7 +4,7 @@ features; no mutable global state other than one idempotent cache; no ambient-in
 from the (de)compression entry points; dispatchers select among kernels consistently."""
 import re
 
-from .. import mir, feat, flow, shape
+from .. import mir, feat, flow, shape, sig
 from ..core import where
 from ..ctx import prog, writes, Z, SYS
 
@@ -15,13 +15,15 @@ EXPLANATION = (
     "unsafe/private callers — by every one of their call sites. WHO: every static of both crates is immutable and Freeze "
     "except the listed idempotent probe cache; no thread_local, no static mut. Ambient input: functions reachable from the "
     "non-gz C entry points call nothing outside core except the allocator and CPU detection. Crc32Fold's fold/fold_copy/finish "
-    "branch on the same probe. Equality of SIMD and scalar results and independence from stale buffer contents are not decided.")
+    "branch on the same probe. Equality of SIMD and scalar results and independence from stale buffer contents are not decided. "
+    "GUARD/hash-read: every hash insertion at `strstart` in the block functions (7 sites) is dominated by lookahead >= WANT_MIN_MATCH = 4, so the hash never covers a stale byte behind the valid data.")
 
 CLAIM = dict(
     text="Static feature-gating proof over the call graph (dominating probes imply each kernel's target features, including the "
          "AVX-512/VPCLMULQDQ builds that the test machine may not run), plus who-may-hold-state and ambient-call rules. "
          "A mis-gated kernel executes an illegal instruction or a different code path on other CPUs — exactly what one test "
-         "machine cannot show. Result equality across kernels is not decided.",
+         "machine cannot show. Result equality across kernels is not decided. "
+         "Also: hash insertions at strstart only with four bytes of lookahead (no stale window byte decides a match).",
     note="Trusted: rustc's codegen_fn_attrs (implied features), MIR; the x86 feature implication table; host target only "
          "(aarch64/wasm/loongarch dispatch arms are not compiled).",
     technique="dominating-probe feature gating over the resolved call graph + global-state and ambient-call inventory",
@@ -166,9 +168,43 @@ def stale_state(ck, P):
                     "inflate::reset_with_config", floor_written=18)
 
 
+def hash_reads(ck, P):
+    """The hash of the string at `strstart` is taken over WANT_MIN_MATCH = 4 bytes.  Hashing at strstart with fewer than
+    four bytes of lookahead reads window bytes behind the valid data - whatever an earlier use of the stream left there -
+    and lets that stale byte pick the hash bucket, i.e. decide between a match and literals."""
+    R = "GUARD/hash-read"
+    n = 0
+    for fn in sorted(P.fns.values(), key=lambda f: f.path):
+        if not fn.path.startswith(Z + "deflate::algorithm::") or fn.is_promoted:
+            continue
+        for c in fn.live_calls(r"State::(quick_insert_string|insert_string)$|::quick_insert_value$"):
+            a = fn.call_args(c)
+            if len(a) < 2:
+                continue
+            pos = mir.strip_casts(a[1])
+            root, fp = mir.field_path(pos)
+            if not fp or fp[-1] != "strstart":
+                continue
+            n += 1
+            ck.use_fn(fn)
+            ok = False
+            for at in fn.dominating_atoms(c.bb):
+                s_ = sig.sig(at, fn)
+                if s_.rel in ("Le", "Lt") and "lookahead" in s_.hi_names:
+                    lo = s_.lo_val if s_.lo_val is not None else max([x for x in s_.lo_consts if isinstance(x, int)] or [0])
+                    if lo >= 4:
+                        ok = True
+            ck.decide(ok, R, "%s:%s" % (fn.path.replace(Z, ""), c.callee.split("::")[-1]), "under lookahead >= WANT_MIN_MATCH",
+                      "%s hashes the %d bytes at strstart without a dominating `lookahead >= 4` test: with 3 bytes of lookahead the "
+                      "fourth byte is stale window memory (the output then depends on what the stream processed before a reset)"
+                      % (fn.path.replace(Z, ""), 4), where(fn, c.line))
+    ck.floor(R, n, 6)
+
+
 def run(ck):
     exclusive_access(ck, prog("K1"))
     stale_state(ck, prog("K1"))
+    hash_reads(ck, prog("K1"))
     for cfg, floor in (("K1", 9), ("K3", 12), ("K3b", 14)):
         P = prog(cfg)
         ck.configs.add(cfg)
